@@ -709,6 +709,19 @@ func startWorker(args ...string) (*workerProc, error) {
 	return &workerProc{cmd: cmd, in: in, out: bufio.NewReaderSize(out, 1<<20)}, nil
 }
 
+// opTraceFull: human readable trace plus the machine readable operation list (for `mc replay`)
+func opTraceFull(spec *SeqSpec, t seqTask, op Op) map[string]any {
+	var ops []Op
+	if t.Init < len(spec.Inits) {
+		ops = append(ops, spec.Inits[t.Init]...)
+	}
+	for _, i := range t.Path {
+		ops = append(ops, spec.Alphabet[i])
+	}
+	ops = append(ops, op)
+	return map[string]any{"trace": opTrace(spec, t, op), "ops": ops}
+}
+
 func opTrace(spec *SeqSpec, t seqTask, op Op) []string {
 	var tr []string
 	if t.Init < len(spec.Inits) {
@@ -836,7 +849,7 @@ func runSeqCheck(spec *SeqSpec, tier string, rep *Report) {
 					blockedOK++
 				case "mismatch":
 					pruned++
-					rep.add(or.Sig, or.Detail, opTrace(spec, r.Task, op))
+					rep.add(or.Sig, or.Detail, opTraceFull(spec, r.Task, op))
 				case "pruned-init":
 					rep.add("init|"+firstLine(or.Detail), or.Detail, opTrace(spec, r.Task, op))
 				case "replay-divergence":
